@@ -162,6 +162,7 @@ package recordio
 //@ func readRecordHeaderV4
 //@   props C12 C04 C09
 //@   replay recordio_damage
+//@   bounded recordio_damage 5-record files, 2 (quick) or 4 (thorough) compression types: every truncation length, every single-byte alteration (255 values) of every record header byte, both readers; file header codes 0..6 x 0..5
 //@   exit [C12:magic-number-checked] err == nil ==> callres(binary.ReadUvarint, 0, 0) == 1246865
 //@   exit [C12:wrong-magic-is-the-magic-error] called(binary.ReadUvarint, 0) && callres(binary.ReadUvarint, 0, 1) == nil && callres(binary.ReadUvarint, 0, 0) != 1246865 ==> err == MagicNumberMismatchErr
 //@   exit [C12,C09:checksum-compared] err == nil ==> called(checksumByteReader.Checksum, 0) && callres(checksumByteReader.Checksum, 0, 1) == nil &&
